@@ -42,8 +42,12 @@ func genC10Sim(t *rapid.T) streamsCase {
 	if cmode != "read-then-close" && rapid.IntRange(0, 3).Draw(t, "ccb") == 0 {
 		st.C.CB = []cbPolicy{{Take: 0}}
 	}
-	smode := rapid.SampledFrom([]string{"readall", "readall-close", "close-now", "cb", "cb-close-inside", "readall+closer"}).Draw(t, "smode")
+	smode := rapid.SampledFrom([]string{"readall", "readall-close", "close-now", "cb", "cb-close-inside", "readall+closer", "close-then-read"}).Draw(t, "smode")
 	switch smode {
+	case "close-then-read":
+		// the reader closes while the writer may still be flushing, and reads again afterwards: whatever arrives during or after
+		// the close must not be handed out any more
+		st.S.Prog = []sOp{{K: "close"}, {K: "readn", N: 1}}
 	case "readall":
 		st.S.Prog = []sOp{{K: "readall"}}
 	case "readall-close":
